@@ -55,7 +55,7 @@ pub fn push_event(e: J) {
     CTX.with(|c| c.borrow_mut().events.push(e));
 }
 
-fn fresh_id() -> u32 {
+pub fn fresh_id() -> u32 {
     CTX.with(|c| {
         let mut c = c.borrow_mut();
         let id = c.next_id;
